@@ -11,7 +11,7 @@ RULE = (
     "(tied / tie-free / float), feature data (generic, lattice, positive) with a drawn symmetric metric, 'bridge' data (unlabeled points on segments between labeled points of different classes); "
     "bounded-exhaustive: all matrices over {1,2,3} on 2 labeled + 2 unlabeled and 3 labeled + 1 unlabeled nodes. Oracle on the union graph: prototypes subset of labeled and admissible for the "
     "labeled sub-graph (C02 oracle), minimax fix-point costs equal every cost exactly, forest well-formed with the root prototype's true label, conquest order a permutation of all nodes in "
-    "non-decreasing cost; empty unlabeled set: every node field, conquest order and predictions equal SupervisedOPF on the labeled set. "
+    "non-decreasing cost; empty unlabeled set: every cost, prototype flag, assigned label and prediction equals SupervisedOPF on the labeled set. "
     "non-trivial: an unlabeled sample is the predecessor of another sample, or the unlabeled set is empty with >= 1 query; distinct by case hash"
 )
 ASSUMPTIONS = ["for pre-computed distances the unlabeled rows follow the labeled rows in the matrix (the only layout the API can express)"]
@@ -82,7 +82,10 @@ def check_case(case):
         sup = dict(case, model="sup")
         r2 = supcase.run(sup, predict=True)
         require(not isinstance(r2, str), "harness", "supervised twin discarded")
-        for f in ("cost", "pred", "status", "predicted_label", "idx_nodes"):
+        # "identical result": every cost, prototype flag and assigned label (and the predictions below).  Which of several
+        # equally good predecessors is recorded, and the conquest order among samples of EQUAL cost, are not pinned down by the
+        # statement (both forests are separately required to be valid optimum-path forests), so they are not compared.
+        for f in ("cost", "status", "predicted_label"):
             require(s[f] == r2.state[f], "empty_unlabeled:same_as_supervised", lambda: "field %s: semi %r vs supervised %r (case %r)" % (f, s[f], r2.state[f], case))
         require(r.preds == r2.preds, "empty_unlabeled:same_predictions", "semi %r vs supervised %r" % (r.preds, r2.preds))
         cl.append("empty_unlabeled")
